@@ -55,6 +55,11 @@ def queries(ctx):
                           "stubs": ["none (parsec_rbtree.c included whole; object-system constructors not reached)"],
                           "bounds": {"nodes": n, "loop bounds of the real code": uw(op, n)},
                           "functions": FUN[op]}))
+    qs.append(Q("init_base_case", ["rb.c", "repo:parsec/class/parsec_object.c", "repo:parsec/class/parsec_list.c"], defs=["N=3", "OP=7"], unwind=5, unwindset=["expand_array.0:11"],
+                units=[U, "parsec/class/parsec_rbtree.h", "parsec/class/parsec_object.h"], object_bits=10, timeout=600,
+                info={"symbolic": ["key of the first inserted node"], "stubs": ["none: real parsec_class_initialize / constructors"],
+                      "functions": ["parsec_rbtree_init", "parsec_obj_run_constructors", "parsec_class_initialize", "parsec_rbtree_insert", "parsec_rbtree_find"],
+                      "bounds": {"class hierarchy depth": 3}}))
     for op in OPS:
         add(op, 3)
         if op != "update":
@@ -65,13 +70,14 @@ def queries(ctx):
     return qs
 
 def mutants(ctx):
-    return [
-        Mutant("insert_fixup_grandparent_not_red", U, "                y->color = PARSEC_RBTREE_BLACK;\n                z->parent->parent->color = PARSEC_RBTREE_RED;",
-               "                y->color = PARSEC_RBTREE_BLACK;", queries=["insert_n4"]),
-        Mutant("left_rotate_child_parent_not_updated", U, "    if (LEFT(y) != tree->nil) {\n        LEFT(y)->parent = x;\n    }", "", queries=["remove_n4", "insert_n4"]),
+    ms = [
+        Mutant("insert_fixup_case3_grandparent_not_red", U, "                z->parent->color = PARSEC_RBTREE_BLACK;\n                z->parent->parent->color = PARSEC_RBTREE_RED;\n                parsec_rbtree_right_rotate(tree, z->parent->parent);",
+               "                z->parent->color = PARSEC_RBTREE_BLACK;\n                parsec_rbtree_right_rotate(tree, z->parent->parent);", queries=["insert_n3"]),
+        Mutant("right_rotate_parent_not_updated", U, "    x->parent = y->parent;\n    if (y->parent == tree->nil) {", "    if (y->parent == tree->nil) {", queries=["insert_n3"]),
+        Mutant("insert_descends_wrong_side_on_last_step", U, "    } else if (A_LOWER_PRIORITY_THAN_B(z, y, tree->comp_offset)) {\n        LEFT(y) = z;\n    } else {\n        RIGHT(y) = z;\n    }",
+               "    } else if (!A_LOWER_PRIORITY_THAN_B(z, y, tree->comp_offset)) {\n        LEFT(y) = z;\n    } else {\n        RIGHT(y) = z;\n    }", queries=["insert_n3"]),
         Mutant("remove_successor_keeps_own_colour", U, "        y->color = z->color;", "", queries=["remove_n3"]),
-        Mutant("delete_fixup_sibling_colour", U, "                w->color = x->parent->color;\n                x->parent->color = PARSEC_RBTREE_BLACK;\n                RIGHT(w)->color = PARSEC_RBTREE_BLACK;",
-               "                x->parent->color = PARSEC_RBTREE_BLACK;\n                RIGHT(w)->color = PARSEC_RBTREE_BLACK;", queries=["remove_n4"]),
+        Mutant("remove_nil_parent_not_set", U, "        if (y->parent == z) {\n            x->parent = y;\n        } else {", "        if (y->parent == z) {\n        } else {", queries=["remove_n3", "remove_n4"]),
         Mutant("transplant_parent_missing", U, "    v->parent = u->parent;", "    if (v != tree->nil) v->parent = u->parent;", queries=["remove_n3"]),
         Mutant("find_or_larger_forgets_candidate", U, "            larger  = current;\n            current = LEFT(current);", "            if (larger == tree->nil) larger  = current;\n            current = LEFT(current);", queries=["find_or_larger_n3"]),
         Mutant("find_goes_wrong_way", U, "        } else if (compval < data) {\n            current = RIGHT(current);\n        } else {\n            current = LEFT(current);\n        }\n    }\n    return NULL; // data not found",
@@ -79,6 +85,19 @@ def mutants(ctx):
         Mutant("update_no_duplicate_check_on_reinsert", U, "        if (parsec_rbtree_find(tree, newdata) != NULL) return PARSEC_ERR_EXISTS;", "", queries=["update_n3"]),
         Mutant("update_pred_compare_off_by_one", U, "            if (pk  > newdata) needs_reinsert = true;", "            if (pk  > newdata + 1) needs_reinsert = true;", queries=["update_n3"]),
     ]
+    if ctx.thorough:
+        # these need >= 5 nodes to be observable (a rotation with a non-nil inner subtree, a red non-root parent in delete case 4)
+        ms += [
+            Mutant("left_rotate_child_parent_not_updated", U, "    if (LEFT(y) != tree->nil) {\n        LEFT(y)->parent = x;\n    }", "", queries=["remove_n5", "insert_n5"]),
+            Mutant("delete_fixup_sibling_colour", U, "                w->color = x->parent->color;\n                x->parent->color = PARSEC_RBTREE_BLACK;\n                RIGHT(w)->color = PARSEC_RBTREE_BLACK;",
+                   "                x->parent->color = PARSEC_RBTREE_BLACK;\n                RIGHT(w)->color = PARSEC_RBTREE_BLACK;", queries=["remove_n5"]),
+        ]
+    return ms
 
-CLAIMED = False
-MANIFEST = {}
+CLAIMED = True
+MANIFEST = {
+ "engine": "cbmc-src",
+ "text": "Bounded model checking of the real parsec_rbtree.c, inductively: for EVERY valid red-black tree of at most N nodes (shape, colours, keys and membership chosen by the SAT solver under the representation invariant) one real insert / remove / update_node / find / find_or_larger / minimum / foreach is executed symbolically and the solver shows that the invariant (BST order, root and nil black, no red-red, equal black height, consistent parent links) holds again, that the node set and keys change exactly as specified, that update_node returns EXISTS iff the key is a duplicate and then changes nothing, and that the queries agree with an array model.  The base case runs the real parsec_rbtree_init with the real object system.  Since the post-state is again an arbitrary valid tree, the step covers operation histories of any length on trees that stay within N nodes (quick: N=3 for all, N=4 for all but update_node; thorough: N=4 all, N=5 insert/remove/queries).",
+ "note": "Trees with more than N nodes are outside the bound (some fix-up paths need 5-6 nodes: covered only in the thorough tier / not at all for 6); caller contracts (insert of an absent key, remove/update of a member) are assumed as zone_malloc.c guarantees them; no concurrency.",
+ "technique": "CBMC bounded symbolic execution of the real C unit from a symbolic valid pre-state (inductive step) + SAT (cadical); loop bounds derived from the red-black height bound, unwinding assertions on",
+}
